@@ -7,9 +7,15 @@ package main
 // front-matter of another layout.
 
 import (
+	"bytes"
+	"context"
 	"fmt"
 	"sort"
 	"strings"
+	"testing/fstest"
+	"time"
+
+	vuego "github.com/titpetric/vuego"
 )
 
 var c07Probes = []string{"k1", "k2", "k3"}
@@ -236,4 +242,59 @@ func c07DataReplay(r *Run, replay *Case) {
 		g.config = map[string]string{}
 	}
 	r.Add(c07DataCase(g, fmt.Sprint(replay.Input["desc"])))
+}
+
+// layout resolution has no memory: on ONE engine, pages of different directories that name the same layout are rendered one after the
+// other in every order; each output must be what a fresh engine gives for that page alone
+func c07History(r *Run) {
+	lay := func(m string) string { return `<div data-m="` + m + `"><div v-html="content"></div></div>` }
+	pg := func(l string) string { return "---\nlayout: " + l + "\n---\n<p data-m=\"page\">x</p>" }
+	sets := []map[string]string{
+		{"pages/about.vuego": pg("frame"), "blog/post.vuego": pg("frame"), "blog/frame.vuego": lay("blog-frame"), "layouts/frame.vuego": lay("shared-frame")},
+		{"pages/about.vuego": pg("frame.vuego"), "blog/post.vuego": pg("frame.vuego"), "blog/frame.vuego": lay("blog-frame"), "layouts/frame.vuego.vuego": lay("odd"), "layouts/frame.vuego": lay("shared-frame"), "pages/frame.vuego": lay("pages-frame")},
+		{"a/p.vuego": pg("w"), "b/p.vuego": pg("w"), "c/p.vuego": pg("w"), "a/w.vuego": lay("a-w"), "c/w.vuego": "---\nlayout: base\n---\n" + lay("c-w"), "layouts/w.vuego": lay("shared-w"), "layouts/base.vuego": lay("base"), "c/base.vuego": lay("c-base")},
+	}
+	for si, files := range sets {
+		var pages []string
+		for n := range files {
+			if strings.HasSuffix(n, "p.vuego") || strings.HasSuffix(n, "about.vuego") || strings.HasSuffix(n, "post.vuego") {
+				pages = append(pages, n)
+			}
+		}
+		sort.Strings(pages)
+		var orders [][]string
+		var perm func(cur, rest []string)
+		perm = func(cur, rest []string) {
+			if len(rest) == 0 {
+				orders = append(orders, append([]string{}, cur...))
+				return
+			}
+			for i := range rest {
+				nr := append(append([]string{}, rest[:i]...), rest[i+1:]...)
+				perm(append(cur, rest[i]), nr)
+			}
+		}
+		perm(nil, pages)
+		for _, order := range orders {
+			mfs := fstest.MapFS{}
+			for n, c := range files {
+				mfs[n] = &fstest.MapFile{Data: []byte(c), ModTime: time.Unix(1700000000, 0)}
+			}
+			long := vuego.NewFS(mfs)
+			for k := 0; k < 2; k++ { // twice round: the second round meets whatever the first one left behind
+				for _, p := range order {
+					var buf bytes.Buffer
+					err := long.Load(p).Fill(map[string]any{}).Render(context.Background(), &buf)
+					fresh := renderPage(files, p, map[string]any{})
+					got := buf.String()
+					c := &Case{Name: fmt.Sprintf("history set %d order %v round %d page %s", si, order, k, p), Input: map[string]any{"op": "history", "set": si, "order": order, "page": p},
+						Impl: map[string]any{"out": got}, Key: fmt.Sprintf("hist|%d|%v|%d|%s", si, order, k, p), Tags: []string{"stream:history"}, Oracle: &Verdict{OK: true}}
+					if (err != nil) != (fresh.Err != "") || got != fresh.Out {
+						c.Oracle = &Verdict{OK: false, Class: "layout-depends-on-render-history", Detail: fmt.Sprintf("page %s after %v (round %d): %q / err=%v; on a fresh engine %q / %q", p, order, k, got, err, fresh.Out, fresh.Err)}
+					}
+					r.Add(c)
+				}
+			}
+		}
+	}
 }
